@@ -110,6 +110,20 @@ pub fn replay_graph<M: Model>(edges_path: &str, make: &dyn Fn() -> M, max_div_pe
         out[e.s].push(edges.len());
         edges.push(e);
     }
+    // Every state is reached through ONE representative path (the first one the search finds).  A hidden divergence that an
+    // earlier operation left behind is only seen if that operation lies on the representative path, so the order in which the
+    // outgoing edges are tried can be permuted (VH_SHUFFLE = n > 0): other runs use other representatives.
+    let shuffle: u64 = std::env::var("VH_SHUFFLE").ok().and_then(|v| v.parse().ok()).unwrap_or(0);
+    if shuffle > 0 {
+        let mut x: u64 = 0x9E3779B97F4A7C15u64.wrapping_mul(shuffle + 1);
+        for l in out.iter_mut() {
+            for i in (1..l.len()).rev() {
+                x = x.wrapping_mul(6364136223846793005).wrapping_add(1442695040888963407);
+                let j = ((x >> 33) as usize) % (i + 1);
+                l.swap(i, j);
+            }
+        }
+    }
     // BFS over agreeing edges
     let mut parent: Vec<Option<usize>> = vec![None; nstates];
     let mut visited = vec![false; nstates];
